@@ -25,7 +25,8 @@ def starts(tr):
             if isinstance(e[7], tuple) and e[7][0] == 's':
                 continue      # resume/restart/resample marker: a pre-empted customer being served again
             d = DISC[(cfg.get('disc') or ['FIFO'] * cfg['n'])[node - 1]]
-            out.append([d, e[2], [[[i, w, a if isinstance(a, int) else 0] for (i, w, a) in q] for q in e[4]]])
+            pm = cfg.get('prio') or [0] * cfg['k']      # the DECLARED mapping class -> priority (not the one read back from the Network)
+            out.append([d, e[2], [[[x[0], x[1], x[2] if isinstance(x[2], int) else 0, pm[x[3]] if len(x) > 3 else pi] for x in q] for pi, q in enumerate(e[4])]])
             meta.append((fi, node, e[2]))
     return out, meta
 
@@ -39,7 +40,7 @@ class C08(Prop):
                          ('schedpre', 40), ('slotted', 40), ('dyn', 50), ('all', 40)]}
     rule = ('one case = one observed run (every service start in it is checked); non-trivial = some start chose among >= 3 '
             'waiting customers or among >= 2 non-empty priority classes; distinct = distinct configuration hashes')
-    clause_text = {50: 'service start with nobody waiting', 51: 'chosen customer is not in the first priority class that has anyone waiting',
+    clause_text = {55: 'a waiting customer is queued under another priority class than the one declared for its customer class', 50: 'service start with nobody waiting', 51: 'chosen customer is not in the first priority class that has anyone waiting',
                    52: 'FIFO: not the first waiting customer of its class', 53: 'LIFO: not the last waiting customer of its class',
                    54: 'FIFO: waiting line of the class is not in arrival order (an earlier arrival is overtaken)'}
 
